@@ -1237,10 +1237,9 @@ Proof.
     [apply b_expr; [apply ltm_le; exact H3|apply mu_lt; [apply ltm_lt; exact H3|lia]]|trivial|].
   intros [cond c3] H4. cbn [snd] in H4.
   assert (H5 : ltm c (pop_nl old c3)) by (eapply ltm_le_trans; [exact H3|]; apply ltm_le in H4; lec).
-  apply (bounded_bind _ (fun c5 => ltm (pop_nl old c3) c5 /\ is_k KDo (pop_nl old c3) = true) (nb c));
-    [apply b_expect'; apply ltm_le; exact H5|trivial|].
-  intros c5 [H6 _].
-  assert (H7 : ltm c c5) by (eapply ltm_le_trans; [exact H5|apply ltm_le; exact H6]).
+  destruct (is_k KDo (pop_nl old c3)); [|apply b_raise'; apply ltm_le; exact H5].
+  set (c5 := pop_nl old c3) in *.
+  assert (H7 : ltm c c5) by exact H5.
   apply (bounded_bind _ (fun x : list stmt * ctx => le_ctx c5 (snd x)) (nb c));
     [apply b_block; [apply ltm_le; exact H7|apply mu_lt; [apply ltm_lt; exact H7|lia]]|trivial|].
   intros [body c6] H8. cbn [snd] in H8.
@@ -1325,10 +1324,9 @@ Proof.
       [apply b_expr; [apply ltm_le; exact H3|apply mu_lt; [apply ltm_lt; exact H3|lia]]|trivial|].
     intros [cond c3] H4. cbn [snd] in H4.
     assert (H5 : ltm c (pop_nl old c3)) by (eapply ltm_le_trans; [exact H3|]; apply ltm_le in H4; lec).
-    apply (bounded_bind _ (fun c5 => ltm (pop_nl old c3) c5 /\ is_k KDo (pop_nl old c3) = true) (nb c));
-      [apply b_expect'; apply ltm_le; exact H5|trivial|].
-    intros c5 [H6 _].
-    assert (H7 : ltm c c5) by (eapply ltm_le_trans; [exact H5|apply ltm_le; exact H6]).
+    destruct (is_k KDo (pop_nl old c3)); [|apply b_raise'; apply ltm_le; exact H5].
+    set (c5 := pop_nl old c3) in *.
+    assert (H7 : ltm c c5) by exact H5.
     apply (bounded_bind _ (fun x : list stmt * ctx => le_ctx c5 (snd x)) (nb c));
       [apply b_block; [apply ltm_le; exact H7|apply mu_lt; [apply ltm_lt; exact H7|lia]]|trivial|].
     intros [body c6] H8. cbn [snd] in H8.
@@ -1337,11 +1335,13 @@ Proof.
                      |apply ltm_le; exact H9|].
     intros o Ho. destruct o; cbn [Post] in Ho; try contradiction; cbn [Post]; cbn beta iota. apply ltm_le in H9. lec.
   - destruct (is_k KElse c) eqn:E2; [|apply b_ok; apply le_refl].
-    assert (R : realb (token c) = true) by (apply (is_k_real KElse); exact E2).
-    pose proof (skip1_ltm c R) as H1.
-    apply (bounded_bind _ (fun x : list stmt * ctx => le_ctx (skip 1 c) (snd x)) (nb c));
-      [apply b_block; [apply ltm_le; exact H1|apply mu_lt; [apply ltm_lt; exact H1|lia]]|trivial|].
-    intros [body c1] H2. cbn [snd] in H2. apply b_ok. apply ltm_le in H1. lec.
+    dpush H0.
+    apply (bounded_bind _ (fun c1 => ltm cp c1 /\ is_k KElse cp = true) (nb c)); [apply b_expect'; exact H0|trivial|].
+    intros c1 [H1 _].
+    assert (H2 : ltm c (pop_nl old c1)) by (eapply le_ltm_trans; [exact H0|]; eapply ltm_le_trans; [exact H1|apply pop_nl_le]).
+    apply (bounded_bind _ (fun x : list stmt * ctx => le_ctx (pop_nl old c1) (snd x)) (nb c));
+      [apply b_block; [apply ltm_le; exact H2|apply mu_lt; [apply ltm_lt; exact H2|lia]]|trivial|].
+    intros [body c2] H3. cbn [snd] in H3. apply b_ok. apply ltm_le in H2. lec.
 Qed.
 
 Lemma step_cases_ok acc c :
